@@ -90,6 +90,44 @@ def _sld_case(keys, dens_kind='density', with_replace=False):
     return h
 
 
+def _edep_wavelength_case(E):
+    """a compound with an energy-dependent atom (3-node table of symbolic values on a private-table atom):
+    the wavelength keyword reaches the SLD and the match point"""
+    import numpy as np
+    from periodictable import nsf, formulas
+    keys = ['X', 'H1']
+    T, P, data = _setup(E, keys)
+    X = P['X']
+    vals = []
+    for i in range(3):
+        re = E.real('tab_re%d' % i, lo=-20, hi=20)
+        im = E.real('tab_im%d' % i, lo=-5, hi=0)
+        vals.append(sym.SymComplex(re, im) if E.symbolic else complex(re, im))
+    nodes = [1.0, 2.0, 4.0]
+    X.neutron.nsf_table = (np.array(nodes), np.array(vals, dtype=object if E.symbolic else complex))
+    try:
+        counts = [E.real('c_%d%s' % (i, k), lo=0, lo_open=True, hi=1000) for i, k in enumerate(keys)]
+        rho = E.real('rho', lo=0, lo_open=True, hi=25)
+        lam = E.real('lam', lo=2.0, lo_open=True, hi=4.0, hi_open=True)      # inside the second table segment
+        d = E.real('d', lo=0, hi=1)
+        mol = formulas.formula([(c, P[k]) for c, k in zip(counts, keys)])
+        s1 = nsf.D2O_sld(mol, volume_fraction=1, D2O_fraction=d, wavelength=lam, table=T, density=rho)
+        # oracle: b_c of X on the chord between nodes 2 and 4
+        t = (lam - 2.0) / 2.0
+        bX = vals[1] + (vals[2] - vals[1]) * t
+        dat = dict(data)
+        dat['X'] = cm.AtomData(data['X'].mass, bX, 0)
+        osub = _substituted(E, keys, counts, dat, rho, lam, d)
+        E.eq('edep_solute.sld_re', s1[0], osub['rho_re'])
+        E.eq('edep_solute.sld_im', s1[1], osub['rho_im'])
+        v1 = E.real('v1', lo=0, hi=1)
+        dstar, sld_star = nsf.D2O_match(mol, wavelength=lam, table=T, density=rho)
+        a = nsf.D2O_sld(mol, volume_fraction=v1, D2O_fraction=dstar, wavelength=lam, table=T, density=rho)
+        E.eq('edep_match_point.reported_sld', a[0], sld_star)
+    finally:
+        X.neutron.nsf_table = None
+
+
 def _match_case(keys, characterise=False):
     def h(E):
         from periodictable import nsf, formulas
@@ -172,6 +210,7 @@ def cases(tier):
     if th:
         out.append(Case('d2o_sld_via_replace[X+H1]', _sld_case(('X', 'H1'), 'density', True), max_paths=mp, timeout_ms=to, portfolio=th,
                         mode={'max': 'ite'}, budget_s=1500))
+    out.append(Case('d2o_sld_energy_dependent_atom', _edep_wavelength_case, max_paths=mp, timeout_ms=to, mode={'max': 'ite'}, budget_s=600, portfolio=th))
     out.append(Case('no_labile_hydrogen', _no_labile_case, max_paths=mp, timeout_ms=to, mode={'max': 'ite'}))
     out.append(Case('fasta_molecule', _molecule_case, max_paths=mp, timeout_ms=to, budget_s=600, mode={'max': 'ite'}))
     return out
